@@ -50,6 +50,7 @@ Plan generate(uint64_t seed, uint64_t run, bool thorough) {
     p.set("nt", nts[r.below(10)], 1);
     if (p.get("nt") > 8 && !model && p.get("maxiter") > 40) p.set("maxiter", 40, 1);
     draw_schedule(r, p.sched, (int)p.get("nt"));
+    draw_vary_params(r, p, 0.5);
     return p;
 }
 
@@ -76,6 +77,11 @@ Result execute(const Plan &p) {
         if (solver == 3 || solver == 4 || solver == 5) prm.put("solver.M", p.get("M"));
         if (solver == 6) prm.put("solver.s", p.get("s"));
     } else L = 2;
+    // non-model worlds: seeded variation of the remaining component parameters (explicit L / M / s above win)
+    std::string varied;
+    if (!model) { boost::property_tree::ptree tmp; varied = apply_vary_params(p, tmp, "precond.coarsening.", coarsening_names[coarsening], "precond.relax.", relax_names[relax], "solver.", solver_names[solver], true);
+        apply_vary_params(p, prm, "precond.coarsening.", coarsening_names[coarsening], "precond.relax.", relax_names[relax], "solver.", solver_names[solver], true);
+        if (solver == 2) { L = prm.get("solver.L", L); } }
     std::vector<double> f = gen::make_vector(n, (uint64_t)p.get("vseed"), (int)p.get("rhs_kind")), x(n, 0.0), f2 = gen::make_vector(n, (uint64_t)p.get("vseed") + 9, 0);
     if (p.get("x0") == 1) x = gen::make_vector(n, (uint64_t)p.get("vseed") + 5, 0);
     if (p.get("x0") == 2) { x = gen::make_vector(n, (uint64_t)p.get("vseed") + 5, 0); for (long i = 0; i < n; ++i) x[i] *= 1e6; }
@@ -97,6 +103,9 @@ Result execute(const Plan &p) {
                 std::vector<double> g = f2, h(n), ug(n, 0.0), uh(n, 0.0);
                 for (long i = 0; i < n; ++i) h[i] = 2 * f[i] - 0.5 * g[i];
                 S.precond().apply(g, ug); S.precond().apply(h, uh);
+                {   // the amplification is a property of the preconditioned operator, not of this right-hand side: probe with the random vector too
+                    double wg = 0, gi = 0; for (long i = 0; i < n; ++i) { long double t = 0; for (ptrdiff_t j = A.ptr[i]; j < A.ptr[i+1]; ++j) t += (long double)A.val[j] * ug[A.col[j]]; wg = std::max(wg, std::fabs((double)t)); gi = std::max(gi, std::fabs(g[i])); }
+                    double pg = (wg == wg && gi > 0) ? std::max(1.0, wg / gi) : std::numeric_limits<double>::infinity(); pamp = std::max(pamp, pg); }
                 double sc = 0, er = 0; for (long i = 0; i < n; ++i) { sc = std::max(sc, std::max(std::fabs(u[i]), std::fabs(ug[i]))); er = std::max(er, std::fabs(uh[i] - (2 * u[i] - 0.5 * ug[i]))); }
                 plin = (sc > 0 && er == er) ? er / sc : std::numeric_limits<double>::infinity();
                 pnrm = fi > 0 ? max_abs(u) / fi : 1;
@@ -151,6 +160,7 @@ Result execute(const Plan &p) {
     js::Value s = js::Value::object();
     s.set("family", gen::family_name((int)p.get("family"))); s.set("n", n); s.set("coarsening", coarsening_names[coarsening]); s.set("relax", relax_names[relax]); s.set("solver", solver_names[solver]);
     s.set("pside", has_pside(solver) ? (left ? "left" : "right") : "n/a"); s.set("levels", (long)nlevels); s.set("nt", nt); s.set("strategy", sim::strategy_name(p.sched.strategy)); s.set("warmup_solve", p.get("warmup"));
+    if (!varied.empty()) { s.set("varied_parameters", varied); res.counts["varied_parameter_worlds"]++; }
     s.set("iters", (long)iters); s.set("reported", resid); s.set("true", rstar); s.set("model_family", (long)model);
     res.sample = s;
     return res;
